@@ -209,6 +209,11 @@ func c08Gen(r *core.Rng) *c08Case {
 			c.Joins = append(c.Joins, core.Pick(r, c08Trivia)+"+"+core.Pick(r, c08Trivia))
 		}
 	}
+	if n >= 2 && r.Chance(1, 5) {
+		// the same source text twice in one argument (each occurrence is decoded at its own column)
+		k := r.Range(1, n-1)
+		c.Pieces[k] = c.Pieces[r.Intn(k)]
+	}
 	return c
 }
 
